@@ -243,7 +243,7 @@ func c09Doc(schema byte, x int64) []elem {
 		}
 		return d
 	case 'C': // nested, a non-metric leaf, a datetime (gives the chunk its _id)
-		return []elem{{"t", &val{T: 0x09, I: 1600000000000 + x}}, {"d", &val{T: 0x03, Doc: []elem{{"q", &val{T: 0x08, Bool: x%2 == 0}}, {"s", &val{T: 0x02, B: []byte("s")}}}}}}
+		return []elem{{"t", &val{T: 0x09, I: 1600000000000 + x}}, {"d", &val{T: 0x03, Doc: []elem{{"q", &val{T: 0x08, Bool: x%2 == 0}}, {"s", &val{T: 0x02, B: []byte("s")}}, {"e", &val{T: 0x02, B: []byte{}}}}}}}
 	}
 	panic("schema")
 }
